@@ -49,6 +49,31 @@ Theorem C02_frames_prefix :
 Proof. exact prefix_frames. Qed.
 Print Assumptions C02_frames_prefix.
 
+(* ... and the same holds when the application READS ON after errors, once the receiver has
+   accepted its first protected frame of the direction: a rejected frame leaves the receiver
+   exactly as it was (the frame counter in particular), so whatever is accepted later is still
+   the sender's next frame - nothing is skipped, repeated or taken from elsewhere, however many
+   errors lie in between.  (Before the first accepted frame a rejected frame of 32 bytes or more
+   freezes the first-frame flag and the digests - modelled exactly in Model/Frame.v
+   [fail_decrypt], compared with the real receiver by the correspondence run - after which the
+   real receiver accepts nothing at all any more; that state is outside this theorem.) *)
+Theorem C02_frames_prefix_across_errors :
+  forall (fs' : list frame) (A B : stream) (k : bytes) (o : other_dir) (K : ctext -> Prop)
+         (tr : list (bytes * N)) (fs : list frame) (A' : stream),
+    duplex A B -> key A = Some k -> encrypted A = true -> wf_send A -> reflect_safe A B o ->
+    fin_recv_aad B = true ->
+    sent A tr fs A' -> known_ok k (enc_iv A) (enc_ctr A) fs o K -> uses_only K fs' ->
+    prefix (snd (recv_frames_all B fs')) tr.
+Proof. exact prefix_frames_across_errors. Qed.
+Print Assumptions C02_frames_prefix_across_errors.
+
+(* A rejected frame does not change an established receiver at all. *)
+Theorem C02_rejected_frame_changes_nothing :
+  forall (B : stream) (f : frame) (B1 : stream) (e : serr),
+    fin_recv_aad B = true -> recv_frame_we B f = (B1, SErr e) -> B1 = B.
+Proof. exact recv_we_fail_established. Qed.
+Print Assumptions C02_rejected_frame_changes_nothing.
+
 (* Detection: the frames accepted are a prefix of the genuine wire itself; the first frame
    that is not the genuine frame of its position is rejected (error at or before the first
    affected message). *)
